@@ -8,7 +8,7 @@ the corrmtx least-squares problem.  N up to 200 / orders up to 30: ObsC12.tla.
 import numpy as np
 
 from .. import core, material as M, tlc, obs
-from ..kern_util import call_guard, cmp_vec, cmp_scalar, entry_variants, live_object_dev
+from ..kern_util import fresh, call_guard, cmp_vec, cmp_scalar, entry_variants, live_object_dev, np_int
 
 
 def replay_state(chk, st, cplx):
@@ -32,7 +32,7 @@ def replay_state(chk, st, cplx):
         expP = float(M.rat(s['P']))
         for ename, x, tol in variants:
             case = {'x': x, 'entry': ename, 'order': p, 'expect': {'A': expA, 'P': expP, 'k': expK}}
-            ok, res = call_guard(aryule, x if isinstance(x, list) else x.copy(), p, norm='biased')
+            ok, res = call_guard(aryule, fresh(x), np_int(p, counter + p), norm='biased')
             chk.evaluations += 1
             if not ok:
                 chk.violation('C12:aryule:%s:raises:%s' % (mode, ename), 'aryule raises %r on non-zero data (%s input)' % (res, ename), case)
@@ -73,7 +73,7 @@ def replay_state(chk, st, cplx):
             for ename, xin, tol in entry_variants(xa, False, counter + p, full=True):
                 if isinstance(xin, list):
                     continue                      # lpc needs an array (it uses ndarray methods)
-                ok, res = call_guard(lpc, xin.copy(), p)
+                ok, res = call_guard(lpc, xin.copy(), np_int(p, counter + p + 1))
                 if not ok:
                     chk.violation('C12:lpc:raises:%s' % ename, 'lpc raises %r' % (res,), {'x': xa, 'order': p, 'entry': ename})
                 else:
